@@ -457,6 +457,34 @@ end EncJson
 namespace Go
 open EncJson Spec
 
+/-! ## forwards equations, for evaluating `forType` on examples -/
+
+/-- one step of `CloneSchemas` on a schema without subschemas -/
+theorem cloneStep_leaf {rec : CRec} {st : Store} {sid : NodeId} {m : Node} (h : st.get? sid = some m) (L : LeafSchema m) :
+    cloneStep rec sid st = .ok (st.size, st.push m) := by
+  unfold cloneStep
+  rw [h]
+  simp only [L.defs, L.additionalItems, L.additionalProperties, L.allOf, L.anyOf, L.contains, L.contentSchema,
+    L.definitions, L.dependencySchemas, L.dependentSchemas, L.else_, L.if_, L.items, L.itemsArray, L.not, L.oneOf,
+    L.patternProperties, L.prefixItems, L.properties, L.propertyNames, L.then_, L.unevaluatedItems,
+    L.unevaluatedProperties, cloneMap, cloneOpt, cloneList, Res.bind_ok, Store.alloc]
+  congr 3
+  cases m
+  cases L
+  simp_all
+
+/-- one iteration of the struct loop, forwards: a field that is kept, without `jsonschema` tag -/
+theorem structLoop_step {rec : IRec} {seen : List String} {g tag : String} {ft : GoType}
+    {rest : List (String × String × GoType)} {n : Node} {st : Store} {fid : NodeId} {st1 : Store}
+    (ho : (fieldJSONInfo g tag).omitted = false) (hd : tagLookup "jsonschema" tag = none)
+    (hr : rec ft seen st = .ok (some fid, st1)) :
+    structLoop rec seen ((g, tag, ft) :: rest) n st =
+      structLoop rec seen rest (addField (ensureProps n) (fieldJSONInfo g tag) fid) st1 := by
+  simp only [structLoop, ho, hr, hd, Res.bind_ok, Bool.false_eq_true, if_false]
+  rfl
+
+/-! ## the recursion -/
+
 theorem stripPtrs_entriesAcceptTree (opts : IOpts) (st : Store) : ∀ (T : GoType) (b : Bool),
     EntriesAcceptTree opts st b T → EntriesAcceptTree opts st (b || (stripPtrs T).2) (stripPtrs T).1
   | .ptr e, b, h => by
